@@ -105,10 +105,10 @@ Print Assumptions C13_translated_schema_is_the_models.
 From Verif Require Import Generated.AppFrame Proofs.AppFrame.
 Theorem C13_translated_saving_changes_nothing :
   In ("PersistToDisk"%string,
-      ["ShutterApp.LastSaved"; "dyn:(func() literal)"; "ext:gob.Encode:*ShutterApp"]%string) gen_entry_writes /\
+      ["ShutterApp.LastSaved"; "ext:gob.Encode:*ShutterApp"]%string) gen_entry_writes /\
   In ("Commit"%string,
       ["CheckTxState.NonceTracker"; "CheckTxState.TxCounts"; "ShutterApp.LastSaved";
-       "dyn:(func() literal)"; "ext:gob.Encode:*ShutterApp"]%string) gen_entry_writes /\
+       "ext:gob.Encode:*ShutterApp"]%string) gen_entry_writes /\
   (forall s, eqc (App.commit s) s).
 Proof.
   destruct frame_tables_agree as [-> _]. unfold model_entry_writes.
